@@ -230,6 +230,51 @@ def patch():
         return o_rhp(self)
     TaskPool.release_hold_point = n_rhp
 
+    from cylc.flow.scheduler import Scheduler as _S
+    o_ss = _S._set_stop
+
+    def n_ss(self, stop_mode=None):
+        ev("cmd_stop", mode=None if stop_mode is None else stop_mode.name)
+        return o_ss(self, stop_mode)
+    _S._set_stop = n_ss
+
+    o_cas = _S.check_auto_shutdown
+
+    def n_cas(self):
+        r = o_cas(self)
+        if r:
+            ev("auto_shutdown_ok", snap_ids=sorted(tid(t) for t in self.pool.get_tasks()))
+        return r
+    _S.check_auto_shutdown = n_cas
+
+    o_ssp = TaskPool.set_stop_point
+
+    def n_ssp(self, stop_point):
+        r = o_ssp(self, stop_point)
+        if r:
+            lp = self.runahead_limit_point
+            ev("cmd_stop_point", point=int(str(stop_point)), limit=None if lp is None else int(str(lp)))
+        return r
+    TaskPool.set_stop_point = n_ssp
+
+    o_sst = TaskPool.set_stop_task
+
+    def n_sst(self, task_id):
+        r = o_sst(self, task_id)
+        ev("cmd_stop_task", task=self.stop_task_id)
+        return r
+    TaskPool.set_stop_task = n_sst
+
+    o_std = TaskPool.stop_task_done
+
+    def n_std(self):
+        before = self.stop_task_id
+        r = o_std(self)
+        if r:
+            ev("stop_task_done", task=before)
+        return r
+    TaskPool.stop_task_done = n_std
+
     o_mf = TaskPool.merge_flows
 
     def n_mf(self, itask, flow_nums):
@@ -271,6 +316,9 @@ class World:
         self.rng = rng
         self.pending = []     # commands waiting for proc_pool.process(): (due_tick, ctx, cb, cba, cb255)
         self.msgs = []        # (due_tick, job_tokens, message)
+        self.inflight = []    # messages handed to the scheduler's queue in the current iteration
+        self.seq = 0          # creation order of messages (a job's messages are never reordered by a re-send)
+        self.sent = {}        # id(TaskMsg) bookkeeping for messages handed to a scheduler: seq by (job, message)
         self.jobs = {}        # (point, name, submit_num) -> dict(outcome)
         self.tick = 0
         self.plan = {tuple(k[:2]) if False else (k[0], k[1]): v for k, v in
@@ -281,11 +329,14 @@ class World:
         p = self.plan.get(key)
         scn = self.scn
         if p is None:
-            r = self.rng.random()
+            # the outcome of a job depends only on (seed, instance, submit number), so that an
+            # interrupted and an uninterrupted run of one scenario see the same jobs
+            jr = random.Random(f"{scn.get('seed', 0)}:{point}/{name}/{sn}")
+            r = jr.random()
             p = {"submit": "ok", "result": "failed" if r < scn.get("fail_rate", 0) else "succeeded",
                  "customs": [c for c in scn["customs"].get(name, [])
-                             if self.rng.random() < scn.get("custom_rate", 1.0)]}
-            if self.rng.random() < scn.get("submit_fail_rate", 0.0):
+                             if jr.random() < scn.get("custom_rate", 1.0)]}
+            if jr.random() < scn.get("submit_fail_rate", 0.0):
                 p["submit"] = "fail"
         return p
 
@@ -339,7 +390,8 @@ def install_world(schd, world, scn, rng):
                             i = rng.randrange(len(sched) - 1)
                             sched[i][0], sched[i + 1][0] = sched[i + 1][0], sched[i][0]        # out of order
                         for due_t, m in sched:
-                            world.msgs.append((due_t + 1, it.job_tokens, m, [p, n], sn))
+                            world.seq += 1
+                            world.msgs.append((due_t + 1, it.job_tokens, m, [p, n], sn, world.seq))
                 ctx.out = out
                 ctx.ret_code = 0
                 cb(ctx, *cba)
@@ -352,7 +404,11 @@ def install_world(schd, world, scn, rng):
                     if plan is None or plan["submit"] != "ok":
                         ctxd.update({"run_status": None})
                     else:
+                        # World assumption: a poll never overtakes a message that is already in the
+                        # scheduler's queue -- it reports the job as it was before the messages handed
+                        # over during this main-loop iteration (those count as still to come).
                         left = [m for m in world.msgs if m[3] == [p, n] and m[4] == sn]
+                        left += [m for m in world.inflight if m[3] == [p, n] and m[4] == sn]
                         names = {m[2] for m in left}
                         if "started" in names:
                             ctxd.update({"time_submit_exit": "2020-01-01T00:00:00Z", "job_runner_exit_polled": 0})
@@ -560,11 +616,17 @@ async def run_scenario(scn: dict, home: Path) -> dict:
                     await queue_command(schd, "stop", {"mode": mode})
                     pending_restart = o
                 else:
-                    await queue_command(schd, o["cmd"], o.get("args", {}))
-            due = [m for m in world.msgs if m[0] <= tick]
+                    args = dict(o.get("args", {}))
+                    if o["cmd"] == "stop":
+                        from cylc.flow.workflow_status import StopMode
+                        args["mode"] = None if args.get("mode") is None else StopMode[args["mode"]]
+                    await queue_command(schd, o["cmd"], args)
+            due = sorted((m for m in world.msgs if m[0] <= tick), key=lambda m: m[5])
             world.msgs = [m for m in world.msgs if m[0] > tick]
-            for _, jt, m, i, sn in due:
+            world.inflight = due
+            for _, jt, m, i, sn, seq in due:
                 ev("deliver", id=i, submit_num=sn, message=m)
+                world.sent[(tuple(i), sn, m)] = seq
                 schd.message_queue.put(TaskMsg(jt, "2020-01-01T00:00:00Z", "INFO", m))
             ev("tick", n=tick)
             n0 = len(REC)
@@ -572,6 +634,17 @@ async def run_scenario(scn: dict, home: Path) -> dict:
             if not alive:
                 await sess.finish()
                 meta["stop"] = sess.stop_reason
+                # messages the dead scheduler never processed: the jobs keep retrying them
+                try:
+                    while True:
+                        m = schd.message_queue.get_nowait()
+                        jt = m.job_id
+                        i_ = [int(jt["cycle"]), jt["task"]]
+                        world.msgs.append((tick + 1, jt, m.message, i_, int(jt["job"]),
+                                           world.sent.get((tuple(i_), int(jt["job"]), m.message), 0)))
+                        ev("undelivered", id=[int(jt["cycle"]), jt["task"]], message=m.message)
+                except Exception:   # queue.Empty
+                    pass
                 if pending_restart is not None:
                     pending_restart = None
                     meta["restarts"] += 1
@@ -613,10 +686,35 @@ def _iter_seq(seq, icp, fcp):
         n += 1
 
 
+def summary(trace):
+    """which instances were submitted, and each instance's final outputs"""
+    sub = set()
+    outs = {}
+    for e in trace:
+        if e["e"] == "submit":
+            for p, n, sn in e["jobs"]:
+                sub.add((p, n))
+        elif e["e"] in ("tick_end", "restarted", "shutdown") and "snap" in e:
+            for t in e["snap"]["tasks"]:
+                outs[tuple(t["id"])] = sorted(t["outputs"])
+        elif e["e"] == "remove":
+            outs[tuple(e["t"]["id"])] = sorted(e["t"]["outputs"])
+    return {"submitted": sorted(sub), "outputs": sorted([list(k), v] for k, v in outs.items())}
+
+
 def run_many(scenarios: list, home: Path) -> list:
     async def go():
         out = []
         for s in scenarios:
-            out.append(await run_scenario(s, home))
+            r = await run_scenario(s, home)
+            if s.get("baseline"):
+                # the same scenario without its restart ops: the uninterrupted run
+                s2 = dict(s)
+                s2["ops"] = [o for o in s.get("ops", []) if o["cmd"] != "restart"]
+                r2 = await run_scenario(s2, home)
+                r["baseline"] = {"summary": summary(r2["trace"]), "stop": r2["meta"]["stop"],
+                                 "error": r2["meta"]["error"]}
+                r["summary"] = summary(r["trace"])
+            out.append(r)
         return out
     return asyncio.run(go())
